@@ -45,6 +45,10 @@ def exact_crystals():
     X['X6'] = dict(lattice=a([[1., 0.], [0., 1.]]),
                    basis=[[a([0., 0.])], [a([.25, 0.]), a([.75, 0.]), a([0., .25]), a([0., .75]), a([.5, .5])]],
                    chem=1, cutoff=0.6)
+    # 2-D pm (mirror x -> -x only, no inversion): three sites in a periodic CHAIN along y with unequal hops 0.625 / 1.5 / 1.875; the cell
+    # is 3 wide so that nothing connects along x: every hop is a bridge (a slow hop gives a slow relaxation mode of the chain)
+    X['X7'] = dict(lattice=a([[3., 0.], [0., 4.]]),
+                   basis=[[a([0., 0.])], [a([.5, .125]), a([.5, .28125]), a([.5, .65625])]], chem=1, cutoff=1.9)
     return X
 
 
